@@ -315,8 +315,18 @@ def refused_prelude(t, nodes, rng, typed):
                 n.add("tmp-new", kind=123)
             elif r < 0.75:
                 n.add(n, deep=True, data_id="some-id", **kw)
-            else:
+            elif r < 0.88:
                 n.add("tmp-child", **kw).remove()
+            else:
+                # a branch with grandchildren that goes away again (remove / remove_children): nothing of it may stay behind
+                tmp = n.add("tmp-branch", **kw)
+                tmp.add("tmp-b1", **kw).add("tmp-b11", **kw).add("tmp-b111", **kw)
+                tmp.add("tmp-b2", **kw)
+                if rng.random() < 0.5:
+                    tmp.remove()
+                else:
+                    tmp.remove_children()
+                    tmp.remove()
         except Exception:
             pass
 
